@@ -389,3 +389,162 @@ def r15(ctx, P, rule='C10.15'):
                    'a path hands out the region without a sufficient bound on %s (%s): the prefix and message, or the next wrap marker, extend past the ring, or a full ring looks empty' % (size, '; '.join(weak) or 'no compare'),
                    w.render() if w else None)
     ctx.floor('ring hand-out returns', n, 1)
+
+
+# --------------------------------------------------------------------------- C10.16
+
+ESZ = {'u8': 1, 'i8': 1, 'u16': 2, 'i16': 2, 'u32': 4, 'i32': 4, 'f32': 4, 'u64': 8, 'i64': 8, 'f64': 8}
+ALLOCS = {'malloc': 0, 'realloc': 1, 'calloc': None}
+
+
+def _lin(fn, e, block, idx, depth=0):
+    """exact linear form (coefs, const) of e over locals/params, or None; locals with a single plain
+    definition are expanded, constants folded, `const * x` and `x * const` scaled"""
+    e = strip_casts(e)
+    if e is None or depth > 8:
+        return None
+    c = const_of(e)
+    if c is not None:
+        return {}, c
+    op = e.get('op')
+    if op == 'ref' and e.get('rk') in ('local', 'param'):
+        if e.get('rk') == 'local':
+            defs, entry = df.reaching_defs(fn, e['name'], block, idx)
+            if len(defs) == 1 and not entry:
+                lhs, rhs, o = defs[0].store_parts()
+                if o == '=' and rhs is not None:
+                    r = _lin(fn, rhs, defs[0].block, defs[0].idx, depth + 1)
+                    if r is not None:
+                        return r
+        return {e['name']: 1}, 0
+    if op == 'member':
+        v = var_of(fn, e)
+        if v is not None:
+            return {v: 1}, 0
+        return None
+    if op == 'bin' and e['o'] in ('+', '-'):
+        a = _lin(fn, e['k'][0], block, idx, depth + 1)
+        b = _lin(fn, e['k'][1], block, idx, depth + 1)
+        if a is None or b is None:
+            return None
+        sg = 1 if e['o'] == '+' else -1
+        out = dict(a[0])
+        for k2, c2 in b[0].items():
+            out[k2] = out.get(k2, 0) + sg * c2
+        return out, a[1] + sg * b[1]
+    if op == 'bin' and e['o'] == '*':
+        a = _lin(fn, e['k'][0], block, idx, depth + 1)
+        b = _lin(fn, e['k'][1], block, idx, depth + 1)
+        if a is None or b is None:
+            return None
+        if not a[0]:
+            return {k2: c2 * a[1] for k2, c2 in b[0].items()}, a[1] * b[1]
+        if not b[0]:
+            return {k2: c2 * b[1] for k2, c2 in a[0].items()}, a[1] * b[1]
+        return None
+    return None
+
+
+def r16(ctx, P):
+    """the capacity recorded for a buffer is covered by the bytes that were allocated for it"""
+    # capacity fields: fields compared with a requested length in a function that (re)allocates
+    n = 0
+    cap_fields = set()
+    for fn in P.all_functions():
+        if not any(c.callee in ALLOCS for c in fn.calls()):
+            continue
+        for b in fn.blocks.values():
+            c = strip_casts(b.cond) if b.cond is not None else None
+            if c is None or c.get('op') != 'bin' or c['o'] not in ('<', '<=', '>', '>='):
+                continue
+            for x in c['k']:
+                x0 = strip_casts(x)
+                if x0.get('op') == 'member' and x0.get('t') in ('u64', 'u32'):
+                    cap_fields.add((x0.get('rec'), x0['field']))
+    ctx.note('C10.16: capacity fields derived (compared with a length in an allocating function): %s' % sorted('%s.%s' % k for k in cap_fields))
+    for fn in P.all_functions():
+        allocs = [c for c in fn.calls() if c.callee in ALLOCS]
+        if not allocs:
+            continue
+        # sibling functions of the same record may only initialise: take every store to a field some function of the program uses as capacity
+        for ev in fn.stores():
+            lhs, rhs, o = ev.store_parts()
+            l0 = strip_casts(lhs)
+            if l0.get('op') != 'member' or rhs is None or o != '=' or const_of(rhs) == 0:
+                continue
+            key = (l0.get('rec'), l0['field'])
+            if key not in cap_fields:
+                continue
+            rec = P.record(l0['rec'])
+            vform = _lin(fn, rhs, ev.block, ev.idx)
+            # allocations of this object (flexible array) or of its array fields that reach this store
+            for al in allocs:
+                if not (al.block is ev.block and al.idx < ev.idx) and not _reaches(fn, al, ev):
+                    continue
+                tgt = _alloc_target(fn, al)
+                if tgt is None:
+                    continue
+                kind, what = tgt
+                if kind == 'struct' and what == l0['rec']:
+                    flex = [f_ for f_ in rec['fields'] if f_['t'].startswith('a?:')]
+                    if not flex:
+                        continue
+                    elem, base, arr = ESZ.get(flex[0]['t'][3:]), flex[0]['off_bits'] // 8, flex[0]['name']
+                elif kind == 'field' and what[0] == l0['rec']:
+                    ft = [f_ for f_ in rec['fields'] if f_['name'] == what[1]]
+                    if not ft or not ft[0]['t'].startswith('p:'):
+                        continue
+                    elem, base, arr = ESZ.get(ft[0]['t'][2:]), 0, what[1]
+                else:
+                    continue
+                if elem is None:
+                    continue
+                si = ALLOCS[al.callee]
+                if si is None:
+                    continue
+                sform = _lin(fn, al.args[si], al.block, al.idx)
+                n += 1
+                ctx.saw(fn, 1)
+                ok, detail = False, 'allocation size or recorded capacity is not a linear expression'
+                if sform is not None and vform is not None:
+                    bad = []
+                    for v_, cv in vform[0].items():
+                        if sform[0].get(v_, 0) < cv * elem:
+                            bad.append('%s: %d bytes allocated per unit, %d recorded (x %d-byte elements)' % (v_, sform[0].get(v_, 0), cv, elem))
+                    if sform[1] - base < vform[1] * elem:
+                        bad.append('constant part: %d bytes after the header, %d elements recorded' % (sform[1] - base, vform[1]))
+                    ok = not bad
+                    detail = ('%s bytes hold %s elements of %d bytes' % (show(al.args[si])[:50], show(rhs)[:30], elem)) if ok else \
+                        'recorded capacity exceeds the allocation: ' + '; '.join(bad) + ' - the reuse test then accepts requests larger than the buffer'
+                ctx.ob('C10.16', ok, fn.name, '%s.%s for %s' % (l0['rec'], l0['field'], arr), ev.where(), detail)
+    ctx.floor('capacity stores checked against their allocation', n, 3)
+
+
+def _reaches(fn, a, b):
+    w = find_path(fn, a, lambda ev, facts: 'target' if ev is b else None, refine=False)
+    return w is not None
+
+
+def _alloc_target(fn, al):
+    """('struct', record) when the result becomes a pointer to a record, ('field', (record, field)) when it is stored (possibly via a local) into an array field"""
+    # the event right after the call that consumes its value
+    cid = al.e.get('id')
+    for ev in fn.stores():
+        lhs, rhs, o = ev.store_parts()
+        if rhs is None or not any(nd.get('id') == cid for nd in walk(rhs)):
+            continue
+        l0 = strip_casts(lhs)
+        if l0.get('op') == 'member' and l0.get('t', '').startswith('p:'):
+            return 'field', (l0['rec'], l0['field'])
+        if l0.get('op') == 'ref':
+            t = l0.get('t', '') or (ev.t or '')
+            if t.startswith('p:s:'):
+                return 'struct', t[4:]
+            # a local pointer later stored into a field
+            for ev2 in fn.stores():
+                l2, r2, o2 = ev2.store_parts()
+                if r2 is not None and strip_casts(r2).get('op') == 'ref' and strip_casts(r2).get('name') == l0['name']:
+                    m2 = strip_casts(l2)
+                    if m2.get('op') == 'member' and m2.get('t', '').startswith('p:'):
+                        return 'field', (m2['rec'], m2['field'])
+    return None
